@@ -1,5 +1,5 @@
 SPECIFICATION Spec
-CONSTANT Spawners = {"s1", "s2", "s3"}
+CONSTANT Spawners = {"s1", "s2"}
 CONSTANT TasksPer = 2
 CONSTANT Waiters = {"w1", "w2"}
 CONSTANT HasPrimary = TRUE
